@@ -262,16 +262,31 @@ func (b *built) Close() {
 }
 
 // tsdbStore returns the TSDB store with the given frame budget (0 = default).
-func (b *built) tsdbStore(frame int) *store.TSDBStore {
-	if s, ok := b.tsdbs[frame]; ok {
+func (b *built) tsdbStore(frame int) *store.TSDBStore { return b.tsdbStoreExt(frame, false) }
+
+// tsdbStoreExt: with setext the store is constructed with OTHER external labels (other names) and
+// gets the world's external labels through SetExtLset afterwards, as the receiver's MultiTSDB does at
+// runtime (SetHashringConfig); every call after that must present the new ones.
+func (b *built) tsdbStoreExt(frame int, setext bool) *store.TSDBStore {
+	key := frame
+	if setext {
+		key = -1 - frame
+	}
+	if s, ok := b.tsdbs[key]; ok {
 		return s
 	}
 	var opts []store.TSDBStoreOption
 	if frame > 0 {
 		opts = append(opts, store.VerifWithMaxBytesPerFrame(frame))
 	}
-	s := world.NewTSDBStore(b.db, b.w.Head.ext(), opts...)
-	b.tsdbs[frame] = s
+	var s *store.TSDBStore
+	if setext {
+		s = world.NewTSDBStore(b.db, map[string]string{"initial": "1", "b": "init"}, opts...)
+		s.SetExtLset(world.Lset(b.w.Head.ext()))
+	} else {
+		s = world.NewTSDBStore(b.db, b.w.Head.ext(), opts...)
+	}
+	b.tsdbs[key] = s
 	return s
 }
 
